@@ -58,6 +58,47 @@ def histories(rep, n, sd):
     return out
 
 
+def _copy_equiv(s):
+    """Equivalence observed directly, no expected values involved: a model, its deep copy
+    and its dill round trip are calculated with the same supplied inputs (cells,
+    unpopulated members of ranges, whole sparse ranges) and must show the same solution
+    cell by cell - blank members of the supplied ranges included."""
+    import copy
+    import dill
+    from .. import hdjob
+    f = impl.F()
+    g = G.make(s, **c03.GEN_KW)
+    rnd = random.Random(s * 131 + 7)
+    out = {'seed': s, 'n': 0, 'problems': [], 'workbook': c03.describe(g)}
+    try:
+        m = R.build_dict(g)
+        copies = {'deepcopy': copy.deepcopy(m), 'dill': dill.loads(dill.dumps(m))}
+        for _ in range(3):
+            inp, ids = hdjob.make_inputs(g, rnd, L, G, V)
+            try:
+                ref_sol = m.calculate(inputs=inp) if inp else m.calculate()
+            except BaseException as ex:  # noqa
+                if isinstance(ex, (KeyboardInterrupt, SystemExit)):
+                    raise
+                continue
+            cells = sorted(set(g.cells) | set(ids))
+            ref = {i: R.node_value(ref_sol, g, i) for i in cells}
+            for name, c in copies.items():
+                sol = c.calculate(inputs=inp) if inp else c.calculate()
+                for i in cells:
+                    out['n'] += 1
+                    a, b = ref[i], R.node_value(sol, g, i)
+                    if (a is None) != (b is None) or (a is not None and V.show(a) != V.show(b)):
+                        out['problems'].append({'copy': name, 'cell': i, 'inputs': sorted(inp),
+                                                'original': V.show(a) if a else None,
+                                                'copy_shows': V.show(b) if b else None})
+    except BaseException as ex:  # noqa
+        if isinstance(ex, (KeyboardInterrupt, SystemExit)):
+            raise
+        out['problems'].append({'copy': 'raises', 'exc': '%s: %s' % (type(ex).__name__, str(ex)[:200])})
+    return out
+
+
 def _cyclic_copy(s):
     """A cyclic workbook, its deep copy and its dill round trip calculated side by side."""
     import copy
@@ -189,6 +230,17 @@ def main():
                                'how': 'from_dict(...).finish(complete=False, circular=True); deepcopy and '
                                       'dill round trip (model and a compiled function); calculate() on each'})
         rep.cov['circular_models_copied'] = ncy
+        neq = 200 if not thorough else 1500
+        for r in pmap(_copy_equiv, [seed() * 100000 + 17900 + i for i in range(neq)], chunk=4):
+            rep.count(max(1, r['n']))
+            rep.distinct(('ce', r['seed']))
+            for pr in r['problems'][:2]:
+                rep.violation({'kind': 'copy-differs-from-original', 'seed': r['seed'], 'cell': pr.get('cell'),
+                               'copy': pr.get('copy')},
+                              {'workbook_seed': r['seed'], 'problem': pr, 'workbook': r['workbook'],
+                               'how': 'model, deepcopy and dill round trip calculated with the same supplied '
+                                      'inputs (whole sparse ranges included); solutions compared cell by cell'})
+        rep.cov['models_compared_with_their_copies_directly'] = neq
         rep.cov['rule'] = ('seeded workbooks (incl. array formulas padded with #N/A) x sampled '
                            'interleavings on {model, copy} with deepcopy / dill, copies of compiled '
                            'functions; every live object observed after every step; distinct '
